@@ -10,7 +10,7 @@ THEOREMS = [
     # (state, operation) -> error table, close-code table, error -> close-code mapping
     'Ws.wrong_state_send', 'Ws.wrong_state_recv', 'Ws.wrong_state_accept', 'Ws.send_after_disconnect',
     'Ws.close_after_closed_silent', 'Ws.close_records_disconnect', 'Ws.close_code_validation_exact', 'Ws.close_invalid', 'Ws.close_sends',
-    'Ws.http_error_close_code', 'Ws.unexpected_error_close_code',
+    'Ws.http_error_close_code', 'Ws.unexpected_error_close_code', 'Ws.raised_error_closes_open_socket',
     # the invariant and its preservation by every operation, script, handler
     'Ws.run_append', 'Ws.okEvents_snoc', 'Ws.Inv.init', 'Ws.Inv.weaken', 'Ws.Inv.sendOk', 'Ws.Inv.stopPump', 'Ws.send_spec',
     'Ws.accept_inv', 'Ws.closeGo_inv', 'Ws.close_inv', 'Ws.sendMsg_inv', 'Ws.receive_spec', 'Ws.recv_inv', 'Ws.op_inv',
@@ -50,6 +50,7 @@ STATEMENTS = {
     'Ws.close_sends': 'close() with no code (1000) or a valid code, on a socket not closed and not known lost, with a working send: exactly one close event with that code; the reason is attached iff (a reason was given or the code has a default reason) and the server supports reasons (spec >= 2.3); the state becomes CLOSED with that code',
     'Ws.http_error_close_code': 'HTTPError(s)/HTTPStatus(s) (0 <= s <= 999; an unrouted path is HTTPError 404 -> 3404, a missing responder HTTPError 405 -> 3405) reaching the default handlers on an open socket send exactly one close event with code 3000 + s',
     'Ws.unexpected_error_close_code': 'any other exception (no custom handler) closes with ws_options.error_close_code, or with 3011 when that code is not a valid close code',
+    'Ws.raised_error_closes_open_socket': 'the class of an exception says nothing about the handled connection: a responder/middleware step that raises ANY exception other than HTTPError/HTTPStatus - in particular WebSocketDisconnected(code) raised by hand or by an operation on another connection\'s socket (relay), OperationNotAllowed, PayloadTypeError, ValueError, OSError - and lets it propagate, on a socket that is not closed and has no observed disconnect, default handlers, working send: exactly one close event with error_close_code (3011 if invalid) is sent (the 403 denial before accept) and nothing escapes',
     'Ws.reason_only_if_supported': 'when the server\'s spec version has no close reasons (< 2.3), no close event of the session - issued by the responder, a middleware, an error handler or the framework itself - carries a reason; for every script, inbox, fault, routing outcome and flag sequence',
     'Ws.rejectFirst_reason': 'the close 1011 answering a first event that is not websocket.connect carries a reason iff the server supports it',
     'Wp.sent_payloads_in_order_unchanged': 'for every media-handler pair and every responder script of send_text / send_data / send_media calls (any per-call catch behaviour) on an accepted, connected socket with a working server send, each message listed with its wire form (text verbatim under the text key, bytes verbatim under the bytes key, a document serialized by the handler of its payload_type under that type\'s key): the send calls the script adds are exactly those websocket.send events, in order, each once, each successful; every call returns None, nothing escapes, the socket stays ACCEPTED',
@@ -70,7 +71,9 @@ TRUSTED = [
 ]
 ASSUMPTIONS = [
     'the server\'s receive() never raises when max_receive_queue > 0 (the statement quantifies over failing send only); with queue 0 a receive() that raises when starved is part of the generated space',
-    'responder / middleware / error-handler scripts are straight-line op lists with per-op catch-and-continue of the documented errors (OperationNotAllowed, WebSocketDisconnected, PayloadTypeError, ValueError); ops: accept (headers, subprotocol, non-str subprotocol), close (9 code kinds incl. non-int, with/without reason), send text/data/media, receive text/data/media, raise HTTPError/HTTPStatus/RuntimeError/app exception',
+    'responder / middleware / error-handler scripts are straight-line op lists with per-op catch-and-continue of the documented errors (OperationNotAllowed, WebSocketDisconnected, PayloadTypeError, ValueError); ops: accept (headers, subprotocol, non-str subprotocol), close (9 code kinds incl. non-int, with/without reason), send text/data/media, receive text/data/media, raise HTTPError/HTTPStatus/RuntimeError/app exception, '
+    'raise an exception of one of the framework\'s own classes (WebSocketDisconnected with/without code or a subclass of it, OperationNotAllowed, PayloadTypeError, ValueError incl. the invalid-close-code message, OSError, '
+    'AssertionError) by hand or by a failing operation on a SECOND connection\'s WebSocket (relay) while the handled connection is in whatever state the script left it',
     'a custom error handler that returns without closing leaves the socket to the ASGI server (application responsibility); the close-always rule is checked for the default handlers and for custom handlers that close or re-raise HTTPError/HTTPStatus',
     'send_text/send_data argument type checks (TypeError) and accept-header validation (sec-websocket-protocol) are not part of the model',
     'payload model: a str payload is a list of Unicode scalar values (no lone surrogates), bytes(payload) of bytes/bytearray/memoryview is the payload; the media handlers are arbitrary functions that may raise (theorems), '
@@ -79,13 +82,16 @@ ASSUMPTIONS = [
 RULE = ('random sessions: responder scripts of 0..8 ops x client scripts of 0..6 messages (valid JSON text, non-JSON text, binary) + optional disconnect '
         '(with/without code) x failing send index 0..4 of 5 kinds (OSError, OSError from "received 1001", "code = 1000 (OK)", subprotocol rejection, RuntimeError) '
         'x ASGI spec 2.0-2.4 x max_receive_queue 0/4 x process_request_ws / process_resource_ws middleware scripts x custom error handler scripts '
+        'x foreign errors (op E: an exception of a framework class - WebSocketDisconnected(1001/None/0/1000/4000) or a subclass, OperationNotAllowed, PayloadTypeError, ValueError x2, OSError, AssertionError - '
+        'raised by hand or produced by a real operation on a second WebSocket whose own client has left / is unaccepted / sent the wrong payload type; in responder, middleware and custom error-handler scripts, '
+        '40 % of them uncaught: exception class and state of the handled connection are independent dimensions) '
         'x route (responder / unrouted / no on_websocket) x first event not connect x error_close_code valid/reserved/<1000 x random yields in the server callables; '
         'every send carries a random payload (text over an alphabet with quotes, backslash, control characters, NUL, U+2028, BOM, non-BMP; bytes incl. 00/FF/invalid UTF-8; '
         'nested JSON documents without floats, via the JSON TEXT handler or the stub BINARY handler), every client message a random payload (valid JSON with whitespace padding, '
         'non-JSON text, binary) with the other key absent or None; plus payload sessions (accept, then <= 10 send/receive ops, <= 8 client messages) that also contain what only the '
         'payload model covers: client events with no payload (no key / None keys) or two payloads, bytes the stub rejects (bad magic, bad UTF-8, bad JSON), documents the serializer '
         'rejects, send_media(BINARY) without msgpack; '
-        'plus every script of length <= 2 (quick) / <= 3 (thorough) over 13 ops x 3 client scripts x fault index x queue 0/4; '
+        'plus every script of length <= 2 (quick) / <= 3 (thorough) over 14 ops (incl. an uncaught foreign WebSocketDisconnected) x 3 client scripts x fault index x queue 0/4; '
         'non-trivial = at least one event was handed to the server\'s send; distinct = distinct driver line (configuration + scripts + observed flags)')
 PARTIAL = ('the disconnect flag is an input of the model (observed on the real object and fed to the driver), its timing is C18\'s subject; '
            'received_payloads_in_order_unchanged_buffered composes with C18\'s trace-inclusion model for sessions without stop() (a close() stops the pump: the events it held are dropped by design); '
@@ -94,9 +100,20 @@ JOBS = {'quick': 4, 'thorough': 16}
 
 CODES = ['n', 'n', '1000', '3001', '4999', '1011', '999', '1005', '1500', 'x', '3000+', 'n+',
          '1003', '1004', '1006', '1007', '1014', '1015', '1999', '2000', '0', '-1', '1001']   # incl. every boundary of the validation table
+# op E<class>: the script fails with an exception of one of the framework's OWN classes that does not stem from the handled connection
+# (raised by hand, or by an operation on another connection's WebSocket): the exception class and the state of the handled socket are independent
+FOREIGN = ['Ewsd1001', 'Ewsd1001', 'Ewsdn', 'Ewsd4000', 'Ewsd0', 'Ewsd1000', 'Eona', 'Epte', 'Evei', 'Eveo', 'Eose', 'Eae']
 OPS = (['A000'] * 4 + ['A100', 'A010', 'A110', 'A001'] + ['C' + c for c in CODES] +
-       ['St', 'St', 'St', 'Sb', 'Sb', 'Rt', 'Rt', 'Rd', 'Rm', 'Rm', 'H403', 'H404', 'T204', 'X', 'B', 'B'])
-SMALL_OPS = ['A000', 'A100', 'Cn', 'C3001', 'C999', 'St', 'Sb', 'Rt', 'Rd', 'Rm', 'H403', 'X', 'B']
+       ['St', 'St', 'St', 'Sb', 'Sb', 'Rt', 'Rt', 'Rd', 'Rm', 'Rm', 'H403', 'H404', 'T204', 'X', 'B', 'B'] + FOREIGN[:8])
+SMALL_OPS = ['A000', 'A100', 'Cn', 'C3001', 'C999', 'St', 'Sb', 'Rt', 'Rd', 'Rm', 'H403', 'X', 'B', 'Ewsd1001']
+
+
+def foreign_want(tok):
+    """the exception a step E<class> raises, as the harness names it (WebSocketDisconnected(code).code is `code or 1000`)"""
+    c = tok[1:]
+    if c.startswith('wsd'):
+        return 'WSD:%d' % (1000 if c[3:] in ('n', '0') else int(c[3:]))
+    return {'ona': 'ONA', 'pte': 'PTE', 'vei': 'VEI', 'veo': 'VEO', 'ose': 'OSE', 'ae': 'AE'}[c]
 FAULTS = ['os', 'os', 'os', 'os1001', 'ok1000', 'sub', 'other', 'other']
 DISC = ['d1001', 'dn', 'd1000', 'd4000']
 
@@ -207,7 +224,7 @@ def default_pay(j):
     return {'text': f'out{j}', 'data': bytes([j % 256, 0xff, 0]), 'doc': {'j': j}}
 
 
-WP_OPS = ['St', 'St', 'Sb', 'Sb', 'Sx', 'Sn', 'Rt', 'Rt', 'Rd', 'Rd', 'Rm', 'Rm', 'Rm', 'A000', 'Cn', 'C1001', 'B']
+WP_OPS = ['St', 'St', 'Sb', 'Sb', 'Sx', 'Sn', 'Rt', 'Rt', 'Rd', 'Rd', 'Rm', 'Rm', 'Rm', 'A000', 'Cn', 'C1001', 'B', 'Ewsd4000']
 
 
 def gen_random(rnd):
@@ -215,7 +232,12 @@ def gen_random(rnd):
         def lvl():
             x = rnd.random()
             return 1 if x < catch_p - 0.1 else (2 if x < catch_p + 0.03 else 0)
-        return [{'tok': rnd.choice(pool), 'catch': lvl(), 'var': rnd.randrange(4), 'pay': gen_pay(rnd)} for _ in range(n)]
+        out = [{'tok': rnd.choice(pool), 'catch': lvl(), 'var': rnd.randrange(4), 'pay': gen_pay(rnd)} for _ in range(n)]
+        for st in out:
+            if st['tok'][0] == 'E':
+                if rnd.random() < 0.25: st['tok'] = rnd.choice(FOREIGN)
+                if rnd.random() < 0.4: st['catch'] = 0        # nobody expects a "disconnected" error on a connected socket
+        return out
     q = rnd.choice([0, 4])
     script = steps(rnd.randint(0, 8))
     if script and rnd.random() < 0.6:
@@ -233,9 +255,9 @@ def gen_random(rnd):
     mw = rnd.random() < 0.35
     custom = None
     if rnd.random() < 0.35:
-        kind = rnd.choice(['close', 'sendclose', 'swallow', 'http', 'status', 'raise', 'nows', 'nows_http'])
+        kind = rnd.choice(['close', 'sendclose', 'swallow', 'http', 'status', 'raise', 'nows', 'nows_http', 'foreign'])
         hs = {'close': [('C4002', 0)], 'sendclose': [('St', 1), ('Cn', 0)], 'swallow': [], 'http': [('H409', 0)],
-              'status': [('T204', 0)], 'raise': [('X', 0)], 'nows': [], 'nows_http': [('H410', 0)]}[kind]
+              'status': [('T204', 0)], 'raise': [('X', 0)], 'nows': [], 'nows_http': [('H410', 0)], 'foreign': [(rnd.choice(FOREIGN), 0)]}[kind]
         custom = {'ws': not kind.startswith('nows'), 'steps': [{'tok': t, 'catch': c, 'var': 0, 'pay': gen_pay(rnd)} for t, c in hs]}
     binh = rnd.random() < 0.5
     return {
@@ -262,6 +284,8 @@ def gen_payload_session(rnd):
     script = [{'tok': 'A000', 'catch': 1, 'var': 0, 'pay': gen_pay(rnd)}]
     for _ in range(rnd.randint(1, 10)):
         script.append({'tok': rnd.choice(WP_OPS), 'catch': rnd.choice([1, 1, 1, 2, 2, 0]), 'var': rnd.randrange(4), 'pay': gen_pay(rnd)})
+        if script[-1]['tok'][0] == 'E':
+            script[-1]['catch'] = rnd.choice([0, 0, 1, 2])
     return {
         'ver': rnd.choice(['2.1', '2.3', '2.4']), 'q': q, 'first': 1, 'route': 'r', 'mwreq': [], 'mwres': [], 'mw_present': False,
         'script': script, 'custom': None, 'inbox': inbox, 'starve': 'late',
@@ -272,7 +296,7 @@ def gen_payload_session(rnd):
 
 
 def gen_exhaustive(maxlen):
-    """every script of length <= maxlen over SMALL_OPS (all steps catch) x 3 client scripts x fault index x queue 0/4."""
+    """every script of length <= maxlen over SMALL_OPS (all steps catch, except the foreign error E, which propagates) x 3 client scripts x fault index x queue 0/4."""
     import itertools
     for l in range(0, maxlen + 1):
         for toks in itertools.product(SMALL_OPS, repeat=l):
@@ -281,7 +305,8 @@ def gen_exhaustive(maxlen):
                     for q in (0, 4):
                         yield {'ver': '2.3' if (l + len(inbox)) % 2 else '2.1', 'q': q, 'first': 1, 'route': 'r', 'mwreq': [], 'mwres': [],
                                'mw_present': False,
-                               'script': [{'tok': t, 'catch': 2 if q else 1, 'var': 0, 'pay': default_pay(j)} for j, t in enumerate(toks)],
+                               'script': [{'tok': t, 'catch': 0 if t[0] == 'E' else 2 if q else 1, 'var': (l + j + (1 if q else 0)) % 4 if t[0] == 'E' else 0,
+                                           'pay': default_pay(j)} for j, t in enumerate(toks)],
                                'custom': None, 'inbox': list(inbox), 'events': [default_event(t, k) for k, t in enumerate(inbox)], 'wp_only': False,
                                'starve': 'late', 'fail': fail, 'fault': 'os' if q == 0 else 'other', 'err': 1011,
                                'binh': False, 'yields': 12345 + l}
@@ -442,6 +467,58 @@ def run(ctx):
             elif k == 'T': raise falcon.HTTPStatus(int(tok[1:]))
             elif k == 'X': raise RuntimeError('boom')
             elif k == 'B': raise Boom('app error')
+            elif k == 'E':
+                rec['via'] = 'peer' if (var % 2 and tok != 'Eae') else 'hand'
+                if rec['via'] == 'peer': await peer_fails(tok[1:])
+                else: raise_by_hand(tok[1:], var)
+                raise RuntimeError('harness: the foreign operation did not raise')
+
+        class LeftWSD(errors.WebSocketDisconnected):
+            """an application's own subclass"""
+
+        def raise_by_hand(c, var):
+            if c.startswith('wsd'):
+                a = c[3:]; cls = LeftWSD if var == 2 else errors.WebSocketDisconnected
+                raise (cls() if a == 'n' else cls(int(a)))
+            if c == 'ona': raise errors.OperationNotAllowed('not now')
+            if c == 'pte': raise errors.PayloadTypeError('wrong payload')
+            if c == 'vei': raise ValueError('Invalid close code 12 (rejected by something else)')
+            if c == 'veo': raise ValueError('some other value')
+            if c == 'ose': raise OSError('some other socket')
+            if c == 'ae': raise AssertionError('application assertion')
+            raise RuntimeError('harness: unknown class ' + c)
+
+        async def peer_fails(c):
+            """a relay: the step operates on ANOTHER connection's WebSocket (a real falcon object on its own scripted server), and that
+            operation fails with an error of the wanted class; the handled connection is not involved at all"""
+            pev = []; pfail = [False]
+
+            async def precv():
+                if pev: return pev.pop(0)
+                raise RuntimeError('harness: peer starved')
+
+            async def psend(m):
+                if pfail[0]: raise OSError('peer server send failed')
+            peer = wsmod.WebSocket(spec['ver'], {'subprotocols': []}, precv, psend, app.ws_options.media_handlers, 0, {})
+            if c.startswith('wsd'):
+                a = c[3:]
+                pev.append({'type': 'websocket.disconnect'} if a == 'n' else {'type': 'websocket.disconnect', 'code': int(a)})
+                await peer.accept()
+                try:
+                    await peer.receive_data()          # B's own handler noticed that B's client has left
+                except errors.WebSocketDisconnected:
+                    pass
+                await peer.send_text('relayed')        # A's responder forwards to B: raises WebSocketDisconnected(B's code) inside A's responder
+            elif c == 'ona': await peer.send_text('too early')
+            elif c == 'pte':
+                pev.append({'type': 'websocket.receive', 'bytes': b'bin'})
+                await peer.accept(); await peer.receive_text()
+            elif c == 'vei': await peer.close(999)
+            elif c == 'veo': await peer.accept(subprotocol=7)
+            elif c == 'ose':
+                pfail[0] = True; await peer.close()
+            else:
+                raise RuntimeError('harness: unknown class ' + c)
 
         async def run_steps(ws, who, steps):
             for st in steps:
@@ -686,9 +763,9 @@ def run(ctx):
                 if len(calls) != 1 or calls[0]['m'].get('type') != kind:
                     return f"{where}: expected exactly one {kind} event, the server saw {[c['r'] for c in calls]}", False
                 return None, calls[0]['ok']
-            if k in 'HTXB':
-                want = {'H': 'HE:' + tok[1:], 'T': 'HS:' + tok[1:], 'X': 'PY', 'B': 'BOOM'}[k]
-                if out != want or calls: return f'{where}: harness error'
+            if k in 'HTXBE':
+                want = foreign_want(tok) if k == 'E' else {'H': 'HE:' + tok[1:], 'T': 'HS:' + tok[1:], 'X': 'PY', 'B': 'BOOM'}[k]
+                if out != want or calls: return f'{where}: harness error (the scripted raise gave {out}, wanted {want}; events {[c["r"] for c in calls]})'
                 continue
             if k == 'A':
                 if st == 'closed' or lostq or st == 'accepted': want = 'ONA'
@@ -942,6 +1019,11 @@ def run(ctx):
         if o['left']: ctx.count('pump_left_running_by_custom_error_handler_without_close')
         for r in o['steps']:
             ctx.count('outcome_' + r['outcome'].split(':')[0])
+            if r['tok'][0] == 'E':
+                ctx.count('foreign_error_' + r['tok'][1:4] + '_' + r.get('via', '?') + ('_in_' + r['who'] if r['who'] != 'responder' else ''))
+        fe = [r for r in o['steps'] if r['tok'][0] == 'E' and r['who'] != 'handler' and r['catch'] == 0]
+        if fe and o.get('o_state', ('closed',))[0] != 'closed' and o['handed'] is None:
+            ctx.count('foreign_error_escaped_while_client_connected_' + o['o_state'][0])
         ctx.count('esc_' + o['esc'].split(':')[0])
 
     async def main():
@@ -965,7 +1047,8 @@ LEVEL_TEXT = ('Machine-checked proofs (Lean 4) over an executable model that tra
               'the default error handlers, _ws_cleanup_on_error and a custom handler: for every script, client script, fault position/kind, configuration and '
               'every sequence of observed disconnect-flag values the events accepted by the server are a word of the ASGI send-side automaton '
               '(emitted_trace_legal[_mw]); a session that returns normally is closed, denied or known lost (closed_unless_escaped[_mw]); no close reason reaches a server '
-              'that does not support it (reason_only_if_supported); the wrong-state error table, the close-code table and the error -> close-code mapping are theorems. The model is tied to the real falcon.asgi.App (source mode) on every '
+              'that does not support it (reason_only_if_supported); the wrong-state error table, the close-code table and the error -> close-code mapping are theorems (incl. raised_error_closes_open_socket: an exception of a framework class - a WebSocketDisconnected '
+              'from another connection - raised on a still connected socket closes it with error_close_code). The model is tied to the real falcon.asgi.App (source mode) on every '
               'run by a differential correspondence on the exact sequence of send calls (incl. which one raised), per-op outcomes, escaped exception and the public '
               'state flags, in both queue modes; an independent protocol monitor and (state, op) oracle written from the statement decide failing inputs. '
               'The last clause (payloads arrive unchanged in order) is proved over the payload-carrying refinement Wp (WsPayload.lean: events carry the text/bytes under the key '
